@@ -129,10 +129,12 @@ pub fn run(ctx: &Ctx) {
     let mut out = Out::sharded(ctx.shard);
     let mut rng = Rng::new(ctx.seed ^ 0x6c6f6f70);
     // 1. boundary bursts around 16 * batch for small batch sizes
-    let batches: &[u8] = if ctx.thorough { &[1, 2, 3, 5, 7, 64] } else { &[1, 2, 3, 64] };
+    // (16 and 64: totals of 255 / 256 / 257 and more datagrams handled by ONE call — seeded change C18-r5 counted
+    // them in a u8)
+    let batches: &[u8] = if ctx.thorough { &[1, 2, 3, 5, 7, 16, 32, 64] } else { &[1, 2, 3, 16, 64] };
     for &b in batches {
         let per = 16 * b as usize;
-        let sizes: Vec<usize> = if b == 64 { vec![1, 63, 64, 65, 200] } else { vec![0, 1, b as usize, per - 1, per, per + 1, 2 * per - 1, 2 * per, 2 * per + 1, 3 * per + 2] };
+        let sizes: Vec<usize> = if b == 64 { vec![1, 63, 64, 65, 200, 255, 256, 257, per - 1, per, per + 1, 2 * per + 2] } else { vec![0, 1, b as usize, per - 1, per, per + 1, 2 * per - 1, 2 * per, 2 * per + 1, 3 * per + 2] };
         for n in sizes {
             let mut steps = vec![];
             sends(&mut rng, n, &mut steps, false);
